@@ -99,7 +99,10 @@ Fixpoint sorted_cmp (s : list ref) : bool :=
 
 (** ** References.SortAndMerge *)
 
-(** The grouping loop, [cur] = curRef (already holding a real reference). *)
+(** The grouping loop, [cur] = curRef (already holding a real reference).
+    [append(curRef.Ranges[:n:n], ref.Ranges...)] never writes into the caller's
+    array: at the value level it is list concatenation (the slice-level model of
+    Model/ValidatorsHeap.v says where the result lives). *)
 Fixpoint sm_loop (cur : ref) (l : list ref) : list ref :=
   match l with
   | [] => [set_ranges cur (ranges_sm (rranges cur))]
@@ -136,11 +139,13 @@ Definition apply_perm (p : list nat) (s : list ref) : list ref :=
   end.
 
 (** [References.SortAndMerge] where sort.Slice chose the order [perm]
-    ([Err 1]: [perm] is not an order a correct sort could have produced — the
-    correspondence check then reports a mismatch). *)
+    ([Err 1]: [perm] is not an order a correct sort could have produced -- the
+    correspondence check then reports a mismatch).  Only the empty list returns
+    early; a list of one reference goes through the loop as well (its ranges are
+    sorted and merged), the comparator is never called on it. *)
 Definition refs_sm (perm : list nat) (s : list ref) : outcome (list ref) :=
   match s with
-  | [] | [_] => Ok s
+  | [] => Ok []
   | _ =>
       if has_conflict s then Panic
       else if valid_perm (length s) perm && sorted_cmp (apply_perm perm s)
